@@ -29,6 +29,9 @@ CHECKS = {
  "C07": ("exploration", "property-based testing (proptest): structured field elements (0, +-small, powers of zeta, roots of unity of every order 2^k) vs. a line-by-line port of the unoptimised elligatorSpec; metamorphic (r0 -> -r0) and additive (two-input hash) relations",
          "Generated-input search in both configurations; both branches of the specification (inner ratio square / non-square) are counted in the evidence.",
          "Trusts the BigUint elligatorSpec port (cross-checked against refmodel/spec.py).", "5/C07"),
+ "C10": ("exploration", "property-based testing (proptest): chains of field operations over every operator/method form (52 forms) on 3 fields x 2 backends with limb-pattern operands vs. big-integer arithmetic mod p, compared through canonical bytes after every step",
+         "Generated-input search (1.2M chains quick); per-(backend, field, form) counts in the evidence, a form never run fails the run as a harness error.",
+         "Trusts num-bigint arithmetic; zero divisors excluded (documented panic).", "5/C10"),
 }
 PENDING = {}
 
